@@ -27,6 +27,11 @@ CLAIMED = {
             "TLC explores every way the network can split the byte stream (any k units at a time) for both modes, small and escape-length frames, empty bodies, close at a boundary and inside a frame, and checks delivered = prefix of sent, mode detected, EOF only after all complete frames, error only on a torn frame, termination; ShortRead alone must break it. About 3k real runs over loopback TCP (segmenting writer with cuts inside announcement and headers, all subsets for a short stream, error-code frames, mid-frame close, byte-exact capture of the write direction) are each judged by TLC against the observable-level specification, including the exact header bytes FrameHeader(mode, n).",
             "loopback TCP with TCP_NODELAY and pauses realises the cuts; frames carry random bytes; a torn frame may surface as error or EOF (statement forbids only a message)",
             "5 C08"),
+    "C05": ("model_checking",
+            "TLA+ specs (IGE.tla parametric; IGEToy.tla finite algebra model-checked; IGETerm.tla term instance) with TLC; toy behaviours and term cases replayed into internal/aes_ige",
+            "TLC checks exhaustively on a finite algebra (2-bit blocks, all 24 permutation keys, all IVs, all messages of 1..2 (3 in thorough) blocks, both directions) that the block loop with its registers modelled as aliasing locations computes exactly the IGE definition, that decryption inverts encryption and that the caller's input is never written; the same ~15k behaviours are stepped through the real block loop with the permutation as cipher (hook), and the term instance of the same definition (real AES), the temp-key derivation for nonces with leading zero bytes, the wrapper for every payload length in both directions and the length validation are checked against the real functions with seeded inputs.",
+            "AES block and SHA-1 trusted (Go standard library); the toy instance covers algebra and aliasing, the term instance covers layout/width/padding with real primitives",
+            "5 C05"),
 }
 
 NOT_YET = {}
